@@ -66,7 +66,16 @@ func sizeOf(label string, L int) int {
 	panic("size class " + label)
 }
 
+// extremeLimits: the largest values the 32-bit limit can take (math.MaxUint32 is the natural spelling of "no limit"),
+// the sign boundary of 32-bit arithmetic and the default.
+var extremeLimits = []int{1<<32 - 1, 1<<32 - 2, 1 << 31, 1<<31 - 1, 1 << 30}
+
 func unpackLimitItems(add func(Item)) {
+	for _, L := range extremeLimits {
+		for _, pipe := range []string{"z", "g", "zg", "zm", "mz", "zmz"} {
+			add(Item{Part: "ulimit-extreme", Pipe: pipe, Pos: L, Scn: "unpack-limit", Class: "unpack-limit-extreme"})
+		}
+	}
 	for _, L := range unpackLimits {
 		for _, pipe := range []string{"z", "g", "zz", "zg", "gz", "zm", "mz", "gm", "mg", "zmz", "mzm"} {
 			add(Item{Part: "ulimit-leaf", Pipe: pipe, Pos: L, Scn: "unpack-limit", Class: "unpack-limit"})
@@ -161,6 +170,60 @@ func runUnpackLimitLeaf(it Item, r *core.Rand) {
 			violate(it, fp("accepted-beyond-limit"), fmt.Sprintf("pipe %q, unpack limit %d: a payload of %d bytes (a gzip layer has to produce %d) was unpacked although that exceeds the limit", it.Pipe, L, n, maxInflate), w)
 		}
 		core.Distinct("nontrivial", fmt.Sprintf("unpack-limit/%s/%s/%s", pc, sc.label, limitLabel(L)))
+	}
+}
+
+// runUnpackLimitExtreme: with the limit at the top of its range every payload of ordinary size is far within it and
+// must round-trip exactly; the limit is set through the filter package and through erpc.SetReadLimit (which keeps
+// both limits equal).
+func runUnpackLimitExtreme(it Item, r *core.Rand) {
+	L := it.Pos
+	ids := []byte(it.Pipe)
+	pc := pipeClass(ids)
+	x, err := mkPipe(ids)
+	if err != nil {
+		core.Fatalf("unpack-limit: pipe %q: %v", it.Pipe, err)
+	}
+	for _, via := range []string{"xfer", "erpc"} {
+		if via == "xfer" {
+			xfer.SetUnpackLimit(uint32(L))
+		} else {
+			erpc.SetReadLimit(uint32(L))
+		}
+		for _, n := range []int{1, 17, 4 << 10, 300 << 10} {
+			p := compressible(n, r)
+			orig := append([]byte(nil), p...)
+			core.Add("evaluations", 1)
+			core.Add("unpack_limit_extreme_checks", 1)
+			fp := func(sym string) string {
+				return fmt.Sprintf("C12/leaf/unpack-limit-extreme/%s/%s:%d:limit=%d:via-%s", pc, sym, n, L, via)
+			}
+			if got := xfer.UnpackLimit(); via == "erpc" && int(got) != L {
+				violate(it, fp("limits-not-equal"), fmt.Sprintf("erpc.SetReadLimit(%d) left the filters' unpack limit at %d", L, got), nil)
+			}
+			packed, perr, _ := safely(func() ([]byte, error) { return x.OnPack(p) })
+			if perr != nil {
+				violate(it, fp("pack-error"), fmt.Sprintf("OnPack failed (pipe %q, %d bytes): %v", it.Pipe, n, perr), nil)
+				continue
+			}
+			packed = append([]byte(nil), packed...)
+			out, uerr, _ := safely(func() ([]byte, error) { return x.OnUnpack(packed) })
+			w := map[string]interface{}{"pipe": it.Pipe, "limit": L, "set_through": via, "payload_len": n, "packed_len": len(packed), "got_len": len(out), "error": fmt.Sprint(uerr)}
+			switch {
+			case uerr != nil:
+				violate(it, fp("refused-within-limit"), fmt.Sprintf("pipe %q, unpack limit %d (set through %s): a payload of %d bytes was refused: %v", it.Pipe, L, via, n, uerr), w)
+			case !bytes.Equal(out, orig):
+				violate(it, fp("mismatch-within-limit"), fmt.Sprintf("pipe %q, unpack limit %d (set through %s): OnUnpack(OnPack(p)) != p for %d bytes (got %d bytes)", it.Pipe, L, via, n, len(out)), w)
+			default:
+				core.Add("unpack_limit_extreme_roundtrips", 1)
+			}
+			core.Distinct("nontrivial", fmt.Sprintf("unpack-limit-extreme/%s/%d/limit=%d/%s", pc, n, L, via))
+		}
+		if via == "xfer" {
+			xfer.SetUnpackLimit(0)
+		} else {
+			erpc.SetReadLimit(0)
+		}
 	}
 }
 
